@@ -28,7 +28,8 @@ TReset == /\ Is("header")
           /\ phase' = (IF WiringFails THEN "failed" ELSE "init")
           /\ q' = [port \in AllInPorts |-> <<>>]
           /\ ups' = [port \in AllInPorts |-> InitUps(port)]
-          /\ em' = [e \in EmIds |-> [i |-> 1, left |-> EmRemotes(e), wait |-> "", st |-> "run"]]
+          /\ em' = [e \in EmIds |-> [i |-> 1, left |-> EmRemotes(e), wait |-> "", st |-> IF e \in Relays THEN "collect" ELSE "run"]]
+          /\ relayed' = [e \in Relays |-> <<>>]
           /\ rpc' = [n \in CmdRun |-> "idle"]
           /\ ctpc' = [n \in CmdRun |-> "off"]
           /\ ctleft' = [n \in CmdRun |-> {}]
@@ -76,6 +77,11 @@ TClose ==
   /\ Is("conn.close")
   /\ \E x \in EmIds \cup CmdRun : CloseConn(x, Ev.from, Ev.port)
   /\ Cardinality(ups'[Ev.port]) = Ev.left
+
+TRelayRecv ==
+  /\ Is("relay.recv")
+  /\ IF Ev.closed THEN RelayRecv(Ev.proc, 0)
+     ELSE \E i \in DOMAIN q[Ev.port] : q[Ev.port][i][2] = Ev.item /\ RelayRecv(Ev.proc, i)
 
 TProcStart == Is("proc.start") /\ ProcStart(Ev.proc) /\ phase' = phase /\ PR(Ev.proc).cores = Ev.cores
 
@@ -135,7 +141,7 @@ TEnd ==
   /\ UNCHANGED vars
 
 TraceNext ==
-  \/ TReset \/ TEmFinish \/ TWire \/ TStart \/ TSendBegin \/ TSendDone \/ TClose \/ TProcStart \/ TRecv
+  \/ TReset \/ TRelayRecv \/ TEmFinish \/ TWire \/ TStart \/ TSendBegin \/ TSendDone \/ TClose \/ TProcStart \/ TRecv
   \/ TTaskNew \/ TTaskTake \/ TDoneRecv \/ TSinkRecv \/ TFail \/ TReturn \/ TEnd
   \/ TSimple("ct.end", CTEnd) \/ TSimple("tasks.closed", TasksClosed) \/ TSimple("proc.exit", RunExit)
   \/ TTask("exec.begin", ExBegin) \/ TTask("exec.skip", ExSkip) \/ TTask("exec.acquired", Acquire)
